@@ -45,7 +45,7 @@ func c16Render(src string, b map[string]any) (o Outcome) {
 		var err liquid.SourceError
 		t, err = c16.eng.ParseString(src)
 		if err != nil {
-			panic("harness: " + err.Error())
+			panic(explore.BaselineFailure{Msg: "harness: " + err.Error()})
 		}
 		c16.tpl[src] = t
 	}
